@@ -149,8 +149,9 @@ theorem foldlM_agree (fuel : Nat) (hbz : BezierPure P fuel) (mode : GameMode) (p
 
 /-- **purity for non-empty control-point lists**: the curve (or the panic / fuel outcome) does not depend on
 what the buffers held before, for all well-formed buffers (the four Bezier scratch vectors have equal
-lengths — true of `CurveBuffers::default()` and preserved by every operation, `compute_preserves_wf`).
-Covers every segment kind; the Bezier part is `Lemmas/BezierPure.lean`. -/
+lengths — true of `CurveBuffers::default()`; only `extend_exact` resizes them, `BezierBuffers.extendExact_wf`).
+Covers every segment kind, **given** `BezierPure` (Lemmas/BezierPure.lean): the same statement for `approximate_bezier`
+alone, an explicit hypothesis that is not proved. Linear, Catmull and accepted-arc segments do not touch the scratch buffers. -/
 theorem compute_ignores_buffers_modulo_bezier (fuel : Nat) (hbz : BezierPure P fuel) (mode : GameMode) (pts : List (PathControlPoint P))
     (L : Option F) (b₁ b₂ : CurveBuffers P F) (hne : pts ≠ []) (h₁ : b₁.bezier.WF) (h₂ : b₂.bezier.WF) :
     observe (Curve.new fuel mode pts L b₁) = observe (Curve.new fuel mode pts L b₂) := by
@@ -208,8 +209,6 @@ theorem compute_ignores_buffers_statement_false : ¬ compute_ignores_buffers_sta
   cases this
 
 end F7
-
-/-! ### buffers stay well-formed -/
 
 /-! ### the `SliderPath` cache -/
 
